@@ -217,7 +217,7 @@ def run(ctx, exe, tier, seed, rand_cases=None):
     issues = []
     stats = {"events": 0, "episodes": 0, "crashes": 0, "leak_restarts": 0,
              "tlc_generated": 0, "distinct_nontrivial": 0}
-    rc, out, err = vlib.sh([exe, "count"])
+    rc, out, err = vlib.sh([exe, "count"], env=_env(ctx))
     total = int(out.strip())
     stats["single_cases"] = total
     _run_mode(ctx, exe, "pool string x shape", "single",
